@@ -24,7 +24,7 @@ INPUT_TYPE_W = [('int', 4), ('float', 5), ('bool', 5), ('str', 2), ('enum', 2), 
 LINE_TYPE_W = [('float', 8), ('int', 2), ('bool', 3), ('str', 2), ('enum', 1)]
 
 FLOATS = [0.0, 1.0, 2.5, 10.25, 1500.0, 0.005, 1.005, 2.675, -3.5, 99999.99, 0.125, 1500.01, 7.0]
-INTS = [0, 1, 2, 3, 5, 10, -1, 1500]
+INTS = [0, 1, 2, 3, 5, 10, -1, 1500, 9007199254740993, 123456789012345678901]
 STRS = ['abc', 'John Q', 'x', '', 'a=b; c', 'Zoe~', '(paren', 'back\\slash', '1040', 'Where St #12', '#4B', 'x ;y', '; z',
         'line one\nline two', 'a\n\nb after an empty line']
 REGEX_OK = ['ab1', 'cc9', 'ba0']
@@ -116,6 +116,13 @@ class Gen(object):
                 inputs.append(spec)
             fs = {'name': name, 'kind': kind, 'multi': multi, 'seq': rng.randrange(4),
                   'inputs': inputs, 'required': [], 'optional': []}
+            if kind == 'form' and rng.chance(0.35):
+                en = rng.pick(['E1', 'E2'])
+                mem = list(ENUMS[en])
+                fs['thresholds'] = {'flat': rng.pick([1500.0, 300, 0.1]),
+                                    'by_status': {'enum': en, 'table': ([[mem[:2], rng.pick([600.0, 12950.0])]] +
+                                                                        [[[m], rng.pick([300.0, 25900.0, 7.5])] for m in mem[2:]])
+                                                  if len(mem) > 2 else [[[m], v] for m, v in zip(mem, [600.0, 300.0])]}}
             if kind == 'form':
                 nreq = rng.weighted([(1, 2), (2, 3), (3, 3), (4, 2), (5, 1)])
                 nopt = rng.weighted([(0, 3), (1, 3), (2, 2), (3, 1), (4, 1)])
@@ -135,6 +142,12 @@ class Gen(object):
             if i0['type'] in ('int', 'float', 'bool'):
                 for k in range(rng.pick([13, 16, 24])):
                     forms[0]['required'].append({'name': f'z_{k}', 'type': 'float', '_wide': i0['name']})
+        elif rng.chance(0.05):
+            # ... or many lines reading the same line (which may be unimplemented / blocked)
+            l0 = forms[0]['required'][0]
+            if l0['type'] in ('int', 'float', 'bool'):
+                for k in range(rng.pick([5, 9, 14])):
+                    forms[0]['required'].append({'name': f'y_{k}', 'type': 'float', '_wideline': l0['name']})
         # a counting input on the first form, used by sum-over-instances
         if any(f['multi'] for f in forms):
             f0 = forms[0]
@@ -165,6 +178,9 @@ class Gen(object):
             self.cur_form, self.cur_line = fs, l
             if '_wide' in l:
                 l['expr'] = ['add', ['in', l.pop('_wide')], ['const', 1]]
+                continue
+            if '_wideline' in l:
+                l['expr'] = ['add', ['ln', l.pop('_wideline')], ['const', 1]]
                 continue
             l['expr'] = self._tail(l)
 
@@ -274,6 +290,10 @@ class Gen(object):
                     cfs, ci = rng.pick(cnt)
                     if not cfs['multi']:
                         return ['sum', mf['name'], self._ref(cfs, ci['name']), rng.pick(cand)['name']]
+        if c < 0.74 and self.cur_form.get('thresholds'):
+            if rng.chance(0.4):
+                return ['thr', 'flat', None]
+            return ['thr', 'by_status', self._enum(self.cur_form['thresholds']['by_status']['enum'], d - 1)]
         if c < 0.78:
             return ['seq', self._any(d - 1), self._num(d - 1)]
         if c < 0.84:
@@ -381,6 +401,9 @@ class Gen(object):
             if fn is not None:
                 return fn if rng.chance(0.4) else ['seq', fn, body]
         return body
+
+    def _noop(self):
+        return None
 
 
 # ----------------------------------------------------------------------------------
@@ -564,12 +587,28 @@ def gen_case(seed, force_faults=None, clean=None, defaults=False):
                     infile.remove(q)
         if dflt:
             refuse_at = None
+    noise = []
+    r_n = rng.sub('noise')
+    if r_n.chance(0.12):
+        # sections whose names differ from a real one only in case / padding (section names are case sensitive: unused)
+        secs = sorted({n.rsplit('.', 1)[0] for n in persona})
+        for sec in r_n.sample(secs, min(len(secs), r_n.pick([1, 1, 2]))):
+            variant = r_n.pick([sec.upper(), sec.capitalize(), sec.title()])
+            if variant == sec:
+                continue
+            fsn = next(f for f in forms if f['name'] == sec.split(':')[0])
+            for ispec in fsn['inputs']:
+                if r_n.chance(0.7):
+                    txt, _ = render_value(r_n, ispec)
+                    if '\n' not in txt:
+                        noise.append([variant, ispec['name'], txt.strip()])
     r_o = rng.sub('sched')
     sched = [None, 0] if r_o.chance(0.2) else [r_o.randrange(1 << 32), r_o.pick([0, 0, 1, 3])]
     layout = None if r_o.chance(0.4) else r_o.randrange(1 << 32)
     return {'world': world, 'persona': persona, 'file': infile, 'prompt': prompt,
             'refuse_at': refuse_at, 'sched': sched, 'requested': requested,
-            'field_names': field_names, 'layout': layout, 'faults': faults, 'dup': dup, 'defaults': dflt}
+            'field_names': field_names, 'layout': layout, 'faults': faults, 'dup': dup, 'defaults': dflt,
+            'noise': noise}
 
 
 # ----------------------------------------------------------------------------------
@@ -586,6 +625,8 @@ def file_text(case_or_items, layout=None, names=None):
         names = case['file'] if names is None else names
         items = [(n, case['persona'][n]['text']) for n in names]
         layout = case.get('layout') if layout is None else layout
+        for sec, key, txt in case.get('noise') or []:
+            items.append((f'{sec}.{key}', txt))
         if case.get('defaults'):
             head = ['[DEFAULT]'] + [f"{k} = " + d['text'].replace('\n', '\n    ') for k, d in sorted(case['defaults'].items())] + ['']
     else:
